@@ -24,6 +24,14 @@ func coreC16(tier string) []RunSpec {
 			}
 		}
 	}
+	// more than 2^53 sat issued (and redeemed): every limit configuration without a per-quote mint maximum
+	for w := 1; w <= 2; w++ {
+		for mb := 0; mb < 3; mb++ {
+			for ml := 0; ml < 3; ml += 2 {
+				out = append(out, RunSpec{Profile: "core:whale", Params: map[string]int{"maxbal": mb, "mintmax": 0, "meltmax": ml, "whale": w}})
+			}
+		}
+	}
 	// one storage error at the k-th storage call of a swap / melt / mint / internal settlement
 	for _, op := range []int{1, 2, 0, 12} {
 		for k := 1; k <= 10; k++ {
@@ -324,17 +332,49 @@ func runC16(rc *RunCtx) {
 	lim.MeltingSettings.MaxAmount = pick("cfg.meltmax", "meltmax", 20, 100)
 	fee := []uint{0, 100, 1000}[T.Choose("cfg.fee", 3)]
 	ln := LNConfig{FeePolicy: T.Choose("cfg.feepol", 3), PayOutcomeMix: T.Choose("cfg.mix", 2)}
+	// "whale" configuration: one holder owns more than 2^53 sat (sums no longer fit a float64 mantissa);
+	// a configured maximum balance is shifted up by that amount so that all boundaries sit on large numbers
+	amt := uint64(255)
+	if lim.MintingSettings.MaxAmount > 0 && lim.MintingSettings.MaxAmount < amt {
+		amt = lim.MintingSettings.MaxAmount
+	}
+	whale := rc.P("whale", -1)
+	if whale < 0 {
+		whale = 0
+		if T.Chance("cfg.whale", 1, 4) {
+			whale = 1 + T.Choose("cfg.whale.kind", 2)
+		}
+	}
+	if lim.MintingSettings.MaxAmount > 0 {
+		whale = 0
+	}
+	whaleAmt := uint64(1)<<53 + 1 + amt%2 // the total after both fundings is odd
+	if whale > 0 && lim.MaxBalance > 0 {
+		lim.MaxBalance += whaleAmt
+	}
+	if whale > 0 {
+		ln.MaxInvoiceSat = 1 << 54
+	}
 	rc.NewMintWorld(ln, MintOpts{Fee: fee, Limits: lim})
 	m := NewMW(rc, "A")
 	m.Locks = true
 	m.Fees = map[string][]uint64{"A": {uint64(fee), 100, 0}}
 	rc.Quietly(func() {
 		// fund within the limits
-		amt := uint64(255)
-		if lim.MintingSettings.MaxAmount > 0 && lim.MintingSettings.MaxAmount < amt {
-			amt = lim.MintingSettings.MaxAmount
-		}
 		m.User.Fund("A", amt)
+		if whale > 0 {
+			wa := NewActor(rc.W, "whale")
+			ps := wa.Fund("A", whaleAmt)
+			rc.S.Probe("c16_whale_funded")
+			if whale == 2 {
+				// ... and spends it once, so that the redeemed side is as large
+				f := m.feeFor("A", ps)
+				ks := rc.W.ActiveKeyset("A")
+				if _, r := wa.Swap("A", ps, rc.W.NewOutputs(Split(SumH(ps)-f), ks.ID)); r.OK() {
+					rc.S.Probe("c16_whale_swapped")
+				}
+			}
+		}
 	})
 	m.CheckBalances("A", "start")
 	// weights:       fund swap melt resolve replay dup race checkstate restore restart clock adv internal rotate
